@@ -286,6 +286,71 @@ func (h *H) withSpace(e []byte, every int) []byte {
 	return out
 }
 
+
+// lzwBoundaryInputs: inputs that bring the LZW encoder to a chosen number of emitted codes with
+// an incompressible prefix (no byte pair occurs twice, so every code is a single literal and the
+// prefix of p bytes yields exactly p-1 codes plus the pending one), followed by tails that make
+// the next codes (a) old entries, (b) the newest entry (KwKwK: runs and short periods), random
+// data, or the end of data.  p is swept over windows around the code-width switches
+// (255, 767, 1791 codes, minus EarlyChange) and the table-full clear (3839 codes).
+func lzwBoundaryInputs(rnd interface{ UintN(uint) uint }, quick bool) [][]byte {
+	seen := map[[2]byte]bool{}
+	prefix := make([]byte, 0, 4000)
+	for len(prefix) < 3900 {
+		b := byte(rnd.UintN(256))
+		if len(prefix) > 0 {
+			k := [2]byte{prefix[len(prefix)-1], b}
+			if seen[k] {
+				continue
+			}
+			seen[k] = true
+		}
+		prefix = append(prefix, b)
+	}
+	rep := func(b byte, n int) []byte { return bytes.Repeat([]byte{b}, n) }
+	var res [][]byte
+	for _, t := range []int{255, 767, 1791, 3839} {
+		win := 6
+		if t == 3839 {
+			win = 10
+		}
+		for p := t - win; p <= t+win; p++ {
+			pre := prefix[:p]
+			last := pre[p-1]
+			tails := [][]byte{
+				nil,
+				rep(last, 40),
+				rep(last^0x55, 60),
+				rep(0, 3000),
+				bytes.Repeat([]byte{last, last ^ 1}, 40),
+				bytes.Repeat([]byte{7, 8, 9}, 30),
+				append(rep(last, 5), prefix[100:160]...),
+				prefix[p : p+50],
+			}
+			for i, tl := range tails {
+				if quick && t != 3839 && i%2 == 1 && p%2 == 1 {
+					continue
+				}
+				res = append(res, append(append([]byte{}, pre...), tl...))
+			}
+		}
+	}
+	// noisy rows followed by blank rows: the table fills up inside the run
+	for d := -40; d <= 40; d++ {
+		n := 3839 + d
+		noise := make([]byte, n)
+		for i := range noise {
+			noise[i] = byte(rnd.UintN(256))
+		}
+		res = append(res, append(noise, rep(0, 30000)...))
+		if !quick || d%4 == 0 {
+			noise2 := append([]byte{}, noise...)
+			res = append(res, append(noise2, bytes.Repeat([]byte{1, 2}, 4000)...))
+		}
+	}
+	return res
+}
+
 // ---------------------------------------------------------------- per-codec checks
 
 func (h *H) check(sig, codec string, data, got []byte, err error, extra map[string]any) bool {
@@ -368,7 +433,12 @@ func (h *H) codecs(data []byte, model bool) {
 		got, err := libDecode(pdf.FilterASCII85{}, v, enc)
 		h.check("interop-a85-lib-decodes-stdlib", "a85", data, got, err, map[string]any{"enc": common.Hex(enc)})
 	}
-	// ---- LZW
+	h.lzw(data, model)
+	h.others(data, model)
+}
+
+func (h *H) lzw(data []byte, model bool) {
+	v := pdf.V1_7
 	for _, early := range []bool{false, true} {
 		name := "lzw0"
 		if early {
@@ -400,6 +470,10 @@ func (h *H) codecs(data []byte, model bool) {
 		got, err := libDecode(pdf.FilterLZW{OffByOne: false}, v, buf.Bytes())
 		h.check("interop-lzw0-lib-decodes-go", "lzw0", data, got, err, map[string]any{"enc": common.Hex(buf.Bytes())})
 	}
+}
+
+func (h *H) others(data []byte, model bool) {
+	v := pdf.V1_7
 	// ---- RunLength
 	if enc, err := libEncode(pdf.FilterRunLength{}, v, data); err != nil {
 		h.check("interop-rl-lib-encode", "rl", data, nil, err, nil)
@@ -921,6 +995,10 @@ func main() {
 			}
 			h.codecs(d, k == 0)
 		}
+	}
+	// LZW code-width switches and table-full clear
+	for i, d := range lzwBoundaryInputs(e.Rand, !e.Thorough) {
+		h.lzw(d, len(d) < 8000 || i%4 == 0)
 	}
 	h.predictors()
 	h.pngInterop()
